@@ -202,8 +202,10 @@ def other_cases(tier, Ts, bound=1, big_stencil=True):
                     " op=%s T=%d bound=%d perms=%s audit=1" % (op, T, bound, "all" if T <= 3 else "few")
                 cases.append(dict(id=cid, line=line, op=op, T=T, group="o%02d_%s" % (i, op)))
     # transfers above the 10 000-node threshold (their 'if' clause enables the team)
-    radii = ol.make_radii(65, 1e-2, 1.3, "uniform")
-    angles = ol.make_angles(160, "uniform")
+    # non-uniform in both directions: a transfer that carries a width from one loop iteration to the next is only wrong where
+    # neighbouring widths differ and only on threads whose chunk does not start at the first line
+    radii = ol.make_radii(65, 1e-2, 1.3, "irregular")
+    angles = ol.make_angles(160, "irregular")
     for T in ([2, 4] if tier != "thorough" else Ts):
         cid = "big_transfers_T%d" % T
         line = ol.case_line(cid, radii, angles, None, 1, 0.3, 0.2, 2, 1, 1.3, 0, "x") + " op=transfers T=%d bound=%d perms=rev audit=0" % (T, 1 if T == 2 else 0)
